@@ -161,12 +161,11 @@ func (flogs *fileLogs) readEntireVersion(dataID, version dvid.UUID, processor fu
 	fl, found := flogs.files[k]
 	flogs.RUnlock()
 	if found {
-		// close then reopen later.
+		// Appends wait while the log is read, so no record is seen half written.  The write
+		// handle stays open: closing and reopening it here let a waiting append write to the
+		// closed handle, and let a second handle be opened for the same log.
 		fl.Lock()
-		fl.Close()
-		flogs.Lock()
-		delete(flogs.files, k)
-		flogs.Unlock()
+		defer fl.Unlock()
 	}
 
 	f, err := os.OpenFile(filename, os.O_RDONLY, 0755)
@@ -200,17 +199,6 @@ func (flogs *fileLogs) readEntireVersion(dataID, version dvid.UUID, processor fu
 		}
 	}
 
-	if found {
-		f2, err2 := os.OpenFile(filename, os.O_WRONLY|os.O_CREATE|os.O_APPEND|os.O_SYNC, 0755)
-		if err2 != nil {
-			dvid.Errorf("unable to reopen write log %s: %v\n", k, err)
-		} else {
-			flogs.Lock()
-			flogs.files[k] = &fileLog{File: f2}
-			flogs.Unlock()
-		}
-		fl.Unlock()
-	}
 	return nil
 }
 
@@ -225,12 +213,11 @@ func (flogs *fileLogs) ReadAll(dataID, version dvid.UUID) ([]storage.LogMessage,
 	fl, found := flogs.files[k]
 	flogs.RUnlock()
 	if found {
-		// close then reopen later.
+		// Appends wait while the log is read, so no record is seen half written.  The write
+		// handle stays open: closing and reopening it here let a waiting append write to the
+		// closed handle, and let a second handle be opened for the same log.
 		fl.Lock()
-		fl.Close()
-		flogs.Lock()
-		delete(flogs.files, k)
-		flogs.Unlock()
+		defer fl.Unlock()
 	}
 
 	f, err := os.OpenFile(filename, os.O_RDONLY, 0755)
@@ -272,17 +259,6 @@ func (flogs *fileLogs) ReadAll(dataID, version dvid.UUID) ([]storage.LogMessage,
 		}
 	}
 
-	if found {
-		f2, err2 := os.OpenFile(filename, os.O_WRONLY|os.O_CREATE|os.O_APPEND|os.O_SYNC, 0755)
-		if err2 != nil {
-			dvid.Errorf("unable to reopen write log %s: %v\n", k, err)
-		} else {
-			flogs.Lock()
-			flogs.files[k] = &fileLog{File: f2}
-			flogs.Unlock()
-		}
-		fl.Unlock()
-	}
 	return msgs, nil
 }
 
@@ -298,12 +274,11 @@ func (flogs *fileLogs) StreamAll(dataID, version dvid.UUID, ch chan storage.LogM
 	fl, found := flogs.files[k]
 	flogs.RUnlock()
 	if found {
-		// close then reopen later.
+		// Appends wait while the log is read, so no record is seen half written.  The write
+		// handle stays open: closing and reopening it here let a waiting append write to the
+		// closed handle, and let a second handle be opened for the same log.
 		fl.Lock()
-		fl.Close()
-		flogs.Lock()
-		delete(flogs.files, k)
-		flogs.Unlock()
+		defer fl.Unlock()
 	}
 
 	f, err := os.OpenFile(filename, os.O_RDONLY, 0755)
@@ -343,17 +318,6 @@ func (flogs *fileLogs) StreamAll(dataID, version dvid.UUID, ch chan storage.LogM
 		}
 	}
 
-	if found {
-		f2, err2 := os.OpenFile(filename, os.O_WRONLY|os.O_CREATE|os.O_APPEND|os.O_SYNC, 0755)
-		if err2 != nil {
-			dvid.Errorf("unable to reopen write log %s: %v\n", k, err)
-		} else {
-			flogs.Lock()
-			flogs.files[k] = &fileLog{File: f2}
-			flogs.Unlock()
-		}
-		fl.Unlock()
-	}
 	return nil
 }
 
@@ -363,6 +327,13 @@ func (flogs *fileLogs) getWriteLog(topic string) (fl *fileLog, err error) {
 	fl, found = flogs.files[topic]
 	flogs.RUnlock()
 	if !found {
+		// Only one write handle may exist per log: a record is written as header then data under
+		// the handle's own lock, so the records of two handles could interleave.
+		flogs.Lock()
+		defer flogs.Unlock()
+		if fl, found = flogs.files[topic]; found {
+			return
+		}
 		filename := filepath.Join(flogs.path, topic)
 		if err = truncateTornTail(filename); err != nil {
 			return
@@ -373,9 +344,7 @@ func (flogs *fileLogs) getWriteLog(topic string) (fl *fileLog, err error) {
 			return
 		}
 		fl = &fileLog{File: f}
-		flogs.Lock()
 		flogs.files[topic] = fl
-		flogs.Unlock()
 	}
 	return
 }
